@@ -11,6 +11,8 @@ type TreeContext struct {
 	cacheClient  TreeCacheClient
 	schemaClient schemaClient.SchemaClientBound
 	actualOwner  string
+	// every owner that has been the actual owner: the intents one transaction sets
+	actualOwners map[string]struct{}
 }
 
 func NewTreeContext(cc TreeCacheClient, sc schemaClient.SchemaClientBound, actualOwner string) *TreeContext {
@@ -18,6 +20,7 @@ func NewTreeContext(cc TreeCacheClient, sc schemaClient.SchemaClientBound, actua
 		cacheClient:  cc,
 		schemaClient: sc,
 		actualOwner:  actualOwner,
+		actualOwners: map[string]struct{}{actualOwner: {}},
 	}
 }
 
@@ -46,4 +49,18 @@ func (t *TreeContext) GetActualOwner() string {
 
 func (t *TreeContext) SetActualOwner(owner string) {
 	t.actualOwner = owner
+	if t.actualOwners == nil {
+		t.actualOwners = map[string]struct{}{}
+	}
+	t.actualOwners[owner] = struct{}{}
+}
+
+// IsActualOwner reports whether the owner is one of the intents that are being set: with several intents in one
+// transaction each of them is the actual owner in turn, what the intended store holds of any of them is the former version.
+func (t *TreeContext) IsActualOwner(owner string) bool {
+	if owner == t.actualOwner {
+		return true
+	}
+	_, exists := t.actualOwners[owner]
+	return exists
 }
